@@ -19,9 +19,17 @@ outcome class x visitor class in rotation) through the real CLI paired with the 
 the front end's verdict from the observed steps (any failure class of the visitor is tolerated once an error is recorded) and is
 compared with what `parse` raised.
 
+Malformed configuration files are a stream as well (`config_stream`): a valid configuration written in every file format (YAML / YML /
+JSON / TOML, in the serialiser's default and in the other lexical styles of the format) and then broken in 17 ways (cut off, a
+punctuation character or quote lost, stray character, doubled or swapped lines, unbalanced bracket, broken escape, trailing comma,
+tabs, bytes that are not UTF-8, NUL, blank / scalar / list documents); the verdict of the format's own decoder is the model's
+parameter (C17's `configure` table: refused in whatever format => 141); a stratified selection (format x corruption x verdict, the
+refused ones first, every format in rotation) goes through the real CLI paired with the API sequence.
+
 Specification on the implementation's observations (Lean op `c19.spec` = `specExit`): never a traceback; the exit status is 0
 exactly when the API sequence ran through, otherwise the documented code of its first exception (2 for a command line click
-refuses); the first message names the file and the (line, column) of the first reported error; the CLI writes the same files
+refuses); the first message names the file and the (line, column) of the first reported error — for a configuration file its decoder
+refuses: names that file —; every diagnostic can be rendered as a message; the CLI writes the same files
 (paths and contents, modulo the workspace directory) and the same report as the API sequence.
 
 Translator: `pydjinni.exceptions.return_codes` after loading all plug-ins -> Lean table; obligations: equal to the documented
@@ -50,12 +58,13 @@ THEOREMS = [_T + n for n in [
     "never_traceback_partial", "never_traceback_counterexample", "exitOf_filter", "eventsOf_filter", "firstRaised_exit",
     "cli_eq_api", "cli_unlisted_target_generates_nothing",
     "front_recorded_error_reported", "front_syntax_error_exit", "front_crash_only_unrecorded",
+    "malformed_config_exit", "config_directory_or_missing_exit",
 ]]
 LEVEL = "proof"
 TRUSTED = [
     "click's argument handling (order: group options, group callback, sub-command lookup; chained sub-commands are all looked up before "
     "any runs) is modelled from its documented behaviour and tied by the subprocess runs",
-    "generator failures, and what the front end's phases after the visitor record (resolution, rules), are parameters of the model, taken from the "
+    "generator failures, a refusal of the report path by write_processed_files, and what the front end's phases after the visitor record (resolution, rules), are parameters of the model, taken from the "
     "in-process API run of the same workspace; the steps of Parser.parse are observed by wrapping Parser.visit",
 ]
 
@@ -437,6 +446,202 @@ def idl_stream(ctx) -> list[dict]:
     return out
 
 
+# --------------------------------------------------------------------------------------------
+# stream of malformed configuration files (the property quantifies over ALL config files, incl. malformed ones, of every format)
+# --------------------------------------------------------------------------------------------
+# A valid configuration is written in each file format (YAML / YML / JSON / TOML; the serialiser's default and the other lexical
+# styles of the format) and then broken: cut off anywhere, a punctuation character or a quote lost, a stray character, a line
+# doubled (a duplicate key / table) or two lines swapped, an unbalanced bracket, a broken escape, a trailing comma, white space
+# turned into tabs, bytes that are not UTF-8, nothing but white space, a scalar or a list as document. What the format's own
+# decoder (an assumed component) says about the result (`c17.classify_file`) is the model's parameter; a stratified selection (format x
+# corruption x verdict, the refused ones first) goes through the real CLI paired with the API sequence.
+
+CONFIG_MUTATIONS = ["truncate", "truncate-line", "char-delete", "unquote", "stray", "dup-line", "swap-lines", "unbalanced", "bad-escape", "trailing-comma",
+                    "tabs", "bytes", "blank", "scalar-document", "list-document", "unterminated-string", "nul"]
+CONFIG_PUNCT = '{}[]:,"\'=.-#\n'
+
+
+def mutate_config(r: random.Random, text: str, fmt: str, kind: str):
+    """one corruption of a configuration text -> text | bytes"""
+    lines = text.split("\n")
+    full = [i for i, l in enumerate(lines) if l.strip()]
+    if kind == "truncate":
+        return text[:r.randrange(1, max(2, len(text)))]
+    if kind == "truncate-line":
+        i = r.choice(full)
+        return "\n".join(lines[:i] + [lines[i][:r.randrange(1, len(lines[i]) + 1)]])
+    if kind in ("char-delete", "unquote"):
+        pos = [i for i, c in enumerate(text) if c in (CONFIG_PUNCT if kind == "char-delete" else "\"'")]
+        if not pos:
+            return text + '"'
+        i = r.choice(pos)
+        return text[:i] + text[i + 1:]
+    if kind == "stray":
+        i = r.randrange(len(text) + 1)
+        return text[:i] + r.choice(STRAY) + text[i:]
+    if kind == "dup-line":
+        i = r.choice(full)
+        return "\n".join(lines[:i + 1] + [lines[i]] + lines[i + 1:])
+    if kind == "swap-lines":
+        if len(full) < 2:
+            return text[::-1]
+        i, j = r.sample(full, 2)
+        lines[i], lines[j] = lines[j], lines[i]
+        return "\n".join(lines)
+    if kind == "unbalanced":
+        i = r.randrange(len(text) + 1)
+        return text[:i] + r.choice("{}[]") + text[i:]
+    if kind == "bad-escape":
+        pos = [i for i, c in enumerate(text) if c.isalnum()]
+        i = r.choice(pos) if pos else 0
+        esc = r.choice(["\\x", "\\u12", "\\", "\\q", "\\U0011", "\\ud800"])
+        quoted = text[:i] + esc + text[i:]
+        return quoted if fmt != "yaml" and fmt != "yml" else text[:i] + '"' + esc + '"' + text[i:]
+    if kind == "trailing-comma":
+        pos = [i for i, c in enumerate(text) if c in "}]\n"]
+        i = r.choice(pos) if pos else len(text)
+        return text[:i] + "," + text[i:]
+    if kind == "tabs":
+        i = r.choice(full)
+        l = lines[i]
+        lines[i] = "\t" + l.lstrip(" ") if l.startswith(" ") or r.random() < 0.5 else l.replace(" ", "\t", 1)
+        return "\n".join(lines)
+    if kind == "bytes":
+        raw = text.encode()
+        i = r.randrange(len(raw) + 1)
+        return raw[:i] + r.choice(BAD_BYTES) + raw[i:]
+    if kind == "blank":
+        return r.choice(["", " ", "\n\n", "\t\n", "# nothing\n", "\ufeff"])
+    if kind == "scalar-document":
+        return r.choice(["hello", "3", "null", "true", '"text"', "~", "3.5", "'x'"]) + r.choice(["", "\n"])
+    if kind == "list-document":
+        return r.choice(["- a\n- b\n", "[1, 2]", "[]", '["generate"]', "[[generate]]\ncpp = 1\n"])
+    if kind == "unterminated-string":
+        pos = [i for i, l in enumerate(lines) if l.rstrip().endswith(('"', "'"))]
+        if not pos:
+            return text + ' "'
+        i = r.choice(pos)
+        lines[i] = lines[i].rstrip()[:-1]
+        return "\n".join(lines)
+    if kind == "nul":
+        i = r.randrange(len(text) + 1)
+        return text[:i] + "\x00" + text[i:]
+    raise ValueError(kind)
+
+
+def config_spec(name: str, content) -> dict:
+    """a file of `case['files']` as the file description of `c17.classify_file` / `cfgsys.write_file`"""
+    if isinstance(content, str):
+        return {"name": name, "text": content}
+    if content.get("dir"):
+        return {"name": name, "dir": True}
+    return {"name": name, "bytes": bytes.fromhex(content["bytes_hex"]).decode("latin-1")}
+
+
+def classify_config(spec: dict | None) -> dict:
+    """`c17.classify_file` with a document the driver's JSON reader can take (dates and the like as text)"""
+    c = c17.classify_file(spec)
+    if "doc" in c:
+        c["doc"] = json.loads(json.dumps(c["doc"], default=str))
+    return c
+
+
+def config_stream(ctx) -> list[dict]:
+    """{'name', 'content' (text | {'bytes_hex'}), 'fmt', 'mut', 'class'}; element 0.. are unbroken styled texts"""
+    out = []
+    trees = [GOOD, gen_cfg(["cpp"]), gen_cfg(["cpp", "objc", "objcpp"], report=False), gen_cfg(["cpp", "cppcli", "yaml"])]
+    fmts = ["yaml", "yml", "json", "toml"]
+
+    def base_text(r, fmt):
+        tree = r.choice(trees)
+        style = r.choice(sorted(cfgsys.STYLES[fmt])) if r.random() < 0.6 else None
+        text = cfgsys.styled(tree, fmt, style) if style else None
+        return (text, style) if text is not None else (dict(c17.FORMATS)[fmt](tree), None)
+    # unbroken, in some lexical style of the format: one per format and run
+    for k, fmt in enumerate(("yaml", "json", "toml")):
+        styles = sorted(cfgsys.STYLES[fmt])
+        style = styles[(ctx.seed * 3 + k) % len(styles)]
+        text = cfgsys.styled(GOOD, fmt, style)
+        if text is not None:
+            out.append({"name": f"styled.{fmt}", "content": text, "fmt": fmt, "mut": "none~" + style})
+    n = ctx.n(6, 40)
+    for fmt in fmts:
+        for kind in CONFIG_MUTATIONS:
+            for j in range(n):
+                r = random.Random(f"{ctx.seed}/c19/cfg/{fmt}/{kind}/{j}")
+                text, style = base_text(r, fmt)
+                m = mutate_config(r, text, fmt, kind)
+                if isinstance(m, str) and r.random() < 0.15:
+                    m2 = mutate_config(r, m, fmt, r.choice(CONFIG_MUTATIONS[:11])) if m.strip() else m
+                    m = m2
+                if isinstance(m, str):
+                    try:
+                        m.encode("utf-8")
+                    except UnicodeEncodeError:
+                        continue
+                out.append({"name": f"broken.{fmt}", "content": m if isinstance(m, str) else {"bytes_hex": m.hex()}, "fmt": fmt, "mut": kind})
+    for c in out:
+        try:
+            cl = classify_config(config_spec(c["name"], c["content"]))
+            json.dumps(cl, allow_nan=False)
+            c["class"] = cl.get("content", cl["state"])
+        except Exception as e:  # noqa  (a document the model's JSON reader cannot take, e.g. NaN: not part of the stream)
+            c["class"] = None
+    return [c for c in out if c["class"] is not None]
+
+
+def broken_config_cases(ctx) -> list[dict]:
+    """the command lines for a stratified selection of the stream: every (format, corruption, decoder verdict) class in rotation, the
+    files the decoder refuses first; some with `-o` options, several targets, `--clean`"""
+    stream = config_stream(ctx)
+    groups: dict = {}
+    for i, c in enumerate(stream):
+        ctx.stat(f"cfg_{c['fmt']}_{c['class']}")
+        groups.setdefault((c["class"] == "mapping" and not c["mut"].startswith("none"), c["fmt"], c["mut"].split("~")[0], c["class"]), []).append(i)
+    ctx.stats["config_stream_inputs"] = len(stream)
+    ctx.stats["config_stream_classes"] = len(groups)
+    refused = [k for k in sorted(groups) if not k[0]]
+    accepted = [k for k in sorted(groups) if k[0]]
+    rr = random.Random(f"{ctx.seed}/c19/cfg/select")
+    rr.shuffle(refused)
+    rr.shuffle(accepted)
+    # round robin over the formats, so that every format is met with several corruption kinds whatever the budget
+    by_fmt = {f: [k for k in refused if k[1] == f] for f in ("yaml", "yml", "json", "toml")}
+    order = []
+    while any(by_fmt.values()):
+        for f in ("toml", "json", "yaml", "yml"):
+            if by_fmt[f]:
+                order.append(by_fmt[f].pop())
+    budget, budget_ok = ctx.n(36, 500), ctx.n(5, 80)
+    chosen = [groups[k][0] for k in order[:budget]] + [groups[k][0] for k in accepted[:budget_ok]]
+    if not ctx.quick:
+        chosen += [i for k in order for i in groups[k][1:3]]
+    cases = []
+    for i in sorted(set(chosen)):
+        c = stream[i]
+        r = random.Random(f"{ctx.seed}/c19/cfg/cli/{i}")
+        opts = OPTION_SETS[0] if r.random() < 0.75 else r.choice([OPTION_SETS[1], OPTION_SETS[3], OPTION_SETS[10]])
+        case = make_case("ok.djinni", c["name"], opts, r.choice([["cpp"], ["cpp"], ["cpp", "java"], ["yaml"]]), r.random() < 0.2)
+        case["files"] = {c["name"]: c["content"]}
+        case["label"] = f"config/{i}/{c['mut']}@{c['fmt']}:{c['class']}"
+        ctx.count(key=("config", c["fmt"], c["mut"].split("~")[0], c["class"]), nontrivial=c["class"] != "mapping",
+                  sample={"mutation": c["mut"], "format": c["fmt"], "decoder": c["class"]})
+        cases.append(case)
+    return cases
+
+
+def config_file_of(case: dict) -> dict | None:
+    """the description of the configuration file an invocation names (None: no file)"""
+    cfg = case["sem"]["config"]
+    if cfg in ("None", "none", "False", "false"):
+        return None
+    if case.get("files") and cfg in case["files"]:
+        return config_spec(cfg, case["files"][cfg])
+    if cfg in CONFIGS:
+        return {"name": cfg, **CONFIGS[cfg]}
+    return {"name": cfg, "missing": True}
+
+
 def write_files(d: Path, files: dict):
     for name, v in files.items():
         p = d / name
@@ -781,13 +986,7 @@ def kinds_of(case: dict, obs: dict) -> list:
 
 def model_request(case: dict, obs: dict) -> dict:
     sem = case["sem"]
-    cfg = sem["config"]
-    if cfg in ("None", "none", "False", "false"):
-        fspec = None
-    elif cfg in CONFIGS:
-        fspec = {"name": cfg, **CONFIGS[cfg]}
-    else:
-        fspec = {"name": cfg, "missing": True}
+    fspec = config_file_of(case)
     stages = {s["stage"]: s for s in obs["api"]["stages"]}
     conf = stages.get("configure")
     parse = stages.get("parse")
@@ -803,18 +1002,22 @@ def model_request(case: dict, obs: dict) -> dict:
              "env": cfgsys.decode_env(case.get("env")), "dotenv": []}
     if "astdump" in stages:
         world["ast_dump"] = raised_of(stages["astdump"])
+    if "report" in stages and stages["report"]["kind"] != "ok":
+        # `write_processed_files` refuses the configured report path (unknown out-file extension): a parameter like the generators' failures
+        world["report_fail"] = raised_of(stages["report"])
     if parse is not None:
         # the front end's verdict is computed by the model (`frontOf`) from the observed steps of `Parser.parse`
         fr = front_run_of(obs["api"].get("read"), obs["api"].get("front") or [], parse, bool(obs["api"].get("visit_escaped")))
         if fr is not None:
             world["front_run"] = fr
-    return {"op": "c19.run", "top_ok": sem["top_ok"], "options": sem["options"], "config": c17.classify_file(fspec),
+    return {"op": "c19.run", "top_ok": sem["top_ok"], "options": sem["options"], "config": classify_config(fspec),
             "command": sem["command"], "world": world, "debug": bool(sem.get("debug"))}
 
 
 def run(ctx):
     ctx.coverage["rule"] = ("distinct = distinct command line (IDL x config x -o list x targets x --clean x malformation), and for the broken-IDL "
-                            "stream through the in-process API distinct (mutation kind, mutated file, outcome class, visitor class); "
+                            "stream through the in-process API distinct (mutation kind, mutated file, outcome class, visitor class); for the malformed-config stream "
+                            "distinct (format, corruption kind, decoder verdict); "
                             "non-trivial = anything but the plain successful `generate ok.djinni cpp` / an input that is still accepted")
     ctx.assumptions += [
         "generator failures and the errors recorded by the front end's phases after the visitor are taken from the in-process API run of the same workspace (parameters of the model)",
@@ -834,6 +1037,7 @@ def run(ctx):
             c["label"] = f"corpus/{i}"
         cases = extra + cases
     cases += broken_idl_cases(ctx)
+    cases += broken_config_cases(ctx)
     child_env = ctx.child_env()
     for c in cases:
         c["child_env"] = child_env
@@ -949,7 +1153,9 @@ def traceback_shape(case, obs) -> str:
     text = obs["stderr"]
     if any(x["stage"] == "parse" and x["kind"] == "crash" for x in obs["api"]["stages"]):
         return "front-end"
-    if sem["config"] == "intkey.yaml":
+    if any(x.get("unprintable") for x in obs["api"]["stages"]):
+        return "diagnostic-cannot-be-rendered"
+    if classify_config(config_file_of(case)).get("content") == "nonStringTopKey":
         return "non-string-key"
     if "has no attribute 'cpp'" in text:
         return "glue-without-cpp"
@@ -959,6 +1165,8 @@ def traceback_shape(case, obs) -> str:
         return "non-mapping-config"
     if "combine_into" in text:
         return "option-over-scalar"
+    if "surrogates not allowed" in text:
+        return "lone-surrogate-in-config"
     if "IsADirectoryError" in text:
         return "config-directory"
     if "ReaderError" in text or "UnicodeDecodeError" in text:
@@ -1023,6 +1231,19 @@ def evaluate(ctx, case, obs, m, sq, s, breaks):
     if obs["rc"] is None:
         ctx.report("cli:timeout", "the command line did not terminate", {**rep})
         return
+    first_st = next((x for x in obs["api"]["stages"] if x["kind"] != "ok"), None)
+    if first_st is not None and first_st.get("unprintable"):
+        ctx.report("api:diagnostic-cannot-be-rendered", f"the exception the API sequence raised cannot be rendered as a message ({first_st['unprintable']})",
+                   {**rep, "impl": brief(obs)})
+    cfg_class = classify_config(config_file_of(case))
+    if (first_st is not None and first_st["stage"] == "configure" and obs["rc"] == 141 and sem["opt_dict"] is not None and not sq["usage"]
+            and (cfg_class["state"] == "directory" or (cfg_class["state"] == "present" and cfg_class["suffix"] != "unknown"
+                                                       and cfg_class["content"] in ("syntaxError", "undecodable", "nonMapping")))):
+        # the configuration file itself is what is wrong: the message has to name it
+        if "".join(sem["config"].split()) not in obs["first_error"]:
+            ctx.report("cli:config-diagnostic-does-not-name-file", f"the message for a configuration file the {cfg_class.get('suffix', '')} decoder refuses "
+                       f"({cfg_class.get('content', cfg_class['state'])}) does not name the file '{sem['config']}'",
+                       {**rep, "impl": brief(obs), "first_message": obs["first_error"][:600]})
     usage = sq["usage"]
     if usage:
         # a command line click refuses: status 2, or the documented code of an error found before click got there
